@@ -3,8 +3,8 @@
 package props
 
 import (
-	"runtime"
 	"fmt"
+	"runtime"
 	"strings"
 	"testing"
 	"time"
